@@ -168,6 +168,21 @@ pub fn true_count_ok(n: usize, sp: f32, ones: usize) -> bool {
     false
 }
 
+/// the list whose direct element the FIRST instance (depth-first order) of `s` inside `t` is
+pub fn first_container(t: &SItem, s: &SItem) -> Option<SItem> {
+    if let SItem::List(v) = t {
+        for x in v.iter() {
+            if x == s {
+                return Some(t.clone());
+            }
+            if let Some(c) = first_container(x, s) {
+                return Some(c);
+            }
+        }
+    }
+    None
+}
+
 fn subst(t: &SItem, pattern: &SItem, sub: &SItem) -> SItem {
     if t == pattern {
         return sub.clone();
@@ -772,25 +787,12 @@ pub fn check_fired(name: &str, pre: &Snap, post: &Snap) -> RefResult {
             }
         }
         "CODE.CONTAINER" => {
+            // documented: the smallest sub-list that contains (and is not) the FIRST instance in
+            // depth-first order, i.e. the list whose direct element that instance is
             let (t, s) = (&pre.c[0], &pre.c[1]);
-            let mut pts = vec![];
-            t.preorder(&mut pts);
-            let mut cands: Vec<Snap> = vec![];
-            for p in pts {
-                if let SItem::List(v) = p {
-                    if v.iter().any(|x| x == s) {
-                        let mut x = e.clone();
-                        x.c.insert(0, p.clone());
-                        cands.push(x);
-                    }
-                }
-            }
-            if cands.is_empty() {
-                let mut x = e.clone();
-                x.c.insert(0, SItem::List(vec![]));
-                cands.push(x);
-            }
-            any_of(&cands, post)
+            let want = if t == s { None } else { first_container(t, s) };
+            e.c.insert(0, want.unwrap_or(SItem::List(vec![])));
+            mism(&e, post)
         }
         "CODE.CONTAINS" => {
             let (t, s) = (&pre.c[0], &pre.c[1]);
